@@ -104,6 +104,8 @@ pub enum Event {
     },
     /// a handler disallowed its own observer
     HandlerDisallow { obs: u32 },
+    /// a writer closure dropped its Var handle right after a deferred write
+    WriterReleased { by: Tag, var: Tag },
     /// an observer read from inside a node function did not fail with CurrentlyStabilising
     InnerReadNotBlocked { by: Tag, obs: u32, got: String },
     /// write to a var from inside a node function or a handler
